@@ -92,6 +92,8 @@ def gen_params(ctx):
         if not ctx.quick and k % 9 == 0:
             force["nx"] = int(rng.integers(28, 41))
         out.append(calib.random_params(rng, True, quick=True, **force))
+    for k in range(2 if ctx.quick else 20):  # a splice exactly on a reference location
+        out.append(calib.random_params(rng, True, quick=True, nta=int(rng.integers(1, 3)), nmatch=int(rng.choice([0, 1])), nx=int(rng.integers(16, 24)), noise=0.01, nt=int(rng.integers(1, 3)), ta_on_ref=True))
     base = calib.random_params(rng, True, quick=True, nmatch=0, noise=0.01, nta=0, nt=2)
     for span in ([10.0, 10000.0] if ctx.quick else [10.0, 100.0, 1000.0, 10000.0]):
         q = dict(base); q["span"] = span; q["family"] = "scale"
